@@ -322,6 +322,7 @@ type mwRun struct {
 	farVacuumed    bool
 	interrupted    map[string]bool // superseded versions present during a vacuum that ran under a fault
 	hadRetireFault bool
+	obsN           int
 	opsAdded       int
 	ro             *roState
 	closers        []func()
@@ -461,8 +462,18 @@ func (r *mwRun) observe(st *fakes3.Store, readonly bool, perm []int, client stri
 	defer conn.Close()
 	sp := r.spec
 	sp.Bucket, sp.Name, sp.Client, sp.ReadOnly = b, uniqName("o"), client, readonly
+	// every other observer opens the existing table with another entries_per_node (or none):
+	// the option only matters for a tree that does not exist yet
+	r.obsN++
+	if r.obsN%2 == 0 && len(currentVersions(st, r.prefix)) > 0 {
+		alts := []int{0, 64, 2, 4096, 7}
+		sp.EPN = alts[(r.obsN/2)%len(alts)]
+		if sp.EPN != r.spec.EPN {
+			r.o.Class("observer-with-other-entries-per-node")
+		}
+	}
 	if err := conn.Create(sp); err != nil {
-		return nil, fmt.Errorf("open (readonly=%v, order %v): %v", readonly, perm, err)
+		return nil, fmt.Errorf("open (readonly=%v, order %v, entries_per_node=%d): %v", readonly, perm, sp.EPN, err)
 	}
 	rows, err := conn.Dump(sp.Name)
 	if err != nil {
